@@ -7,7 +7,7 @@ ENTRY = dict(
          "(classified by reflection over their spec: session_ticket / pre_shared_key / extended_master_secret / psk modes) twice "
          "against each server kind; PSK parrots with and without OmitEmptyPsk and through a PatchBuiltHello length observer; pairs "
          "differing in extended_master_secret; server-name shapes (two DNS names, a trailing dot, IPv4/IPv6 literals reaching one listener, "
-         "no ServerName with InsecureSkipVerify = remote-address key); clock advances up to 7 days + 1 s; InsecureSkipVerify mixes; "
+         "no ServerName with InsecureSkipVerify = remote-address key); clock advances up to 7 days + 1 s; InsecureSkipVerify mixes, InsecureServerNameToVerify (star, another covered name, an uncovered one) and InsecureSkipTimeVerify with an expired leaf; "
          "server version changes; the multi-step use on the resuming connection (BuildHandshakeState, then SetClientRandom or an ALPN "
          "value edited in place, then Handshake); servers rotating their ticket key mid-history; cache entries whose secret the "
          "test corrupts (the resumption must fail cleanly, the entry be evicted, the next connection complete). Then -n random histories. A history is one case (per connection: spec features, name, server, "
@@ -19,11 +19,11 @@ ENTRY = dict(
                   "HMAC output size = hash size (premise of the binder theorem)"],
     assumes=["fewer server names in use than the LRU capacity (C36: the cache then is a map)",
              "strings (server names, remote addresses) are represented by identities assigned by the runner: equal id = equal string",
-             "a connection without ServerName has InsecureSkipVerify (otherwise the handshake is refused before the hello is built)",
+             "a connection without ServerName has InsecureSkipVerify or InsecureServerNameToVerify (otherwise the handshake is refused before the hello is built)",
              "the server's own cipher-suite choice and ticket length are inputs of the model (taken from the observation)",
              "binder validity is crypto: the model server accepts every binder; the real server's acceptance is observed",
              "HelloCustom clients set PreferSkipResumptionOnNilExtension (without it a missing session extension panics by design)",
-             "InsecureSkipTimeVerify / InsecureServerNameToVerify unset; no client certificates; no QUIC / 0-RTT; no ECH"],
+             "no client certificates; no QUIC / 0-RTT; no ECH"],
     level_text="Proof (any history / any cache state) of: next-connection resumption for TLS 1.2 with session_ticket and TLS 1.3 with "
                "pre_shared_key, PSK last, binder patch length-neutral for any MAC of hash size, no cross-name offer, no EMS session "
                "in a hello without EMS (after the fix). Partial: the HelloRetryRequest clause is refuted for uTLS-built hellos "
